@@ -11,7 +11,7 @@ COQ_DIR = "C04"
 EXTRA_COQ_DIRS = ["LLP"]
 RUN_MOD = "C04.Run"
 MODEL_TARGETS = ["C04/Run.vo"]
-PROOF_TARGETS = ["C04/LemmasText.vo", "C04/LemmasLex.vo", "C04/LemmasCover.vo", "C04/LemmasTree.vo", "C04/LemmasConc.vo", "C04/LemmasNode.vo", "C04/LemmasOps.vo"]
+PROOF_TARGETS = ["C04/LemmasText.vo", "C04/LemmasLex.vo", "C04/LemmasCover.vo", "C04/LemmasTree.vo", "C04/LemmasConc.vo", "C04/LemmasNode.vo", "C04/LemmasOps.vo", "C04/LemmasSess.vo"]
 PROPS = ["C04/Props.v"]
 ALLOWED_AXIOMS = []
 IMPL_TIMEOUT = 10.0
@@ -38,7 +38,19 @@ RULE = ("texts rendered from the harness lexicon (words, numbers, quoted strings
         "cleanup() in place (surviving objects identified), cleanup() of the clone, the first tree again, parse(text) with the "
         "default cleanup and random keep_symbols, clone() of the cleaned tree, parse(tuple(lines)); fixed tree probes with "
         "blanks / line breaks / comments between an element's last token and the next token for every grammar.  "
-        "Non-trivial = distinct case with at least two lines or a span token or a foreign character, and at least three tokens.")
+        "SESSIONS (420 quick / 2600 thorough): one parser object and ONE TEXT OBJECT used several times while the object changes - "
+        "a list / list subclass / deque of lines edited in place between the calls (line replaced, by another one of the same length, "
+        "inserted, appended, deleted, popped, two lines swapped, list reversed, cleared and refilled, slice-assigned, refilled with the "
+        "same number of lines, a foreign character put into a line, a line blanked), a tuple / str / str subclass / str subclass whose "
+        "instances all compare equal and hash alike (the variable is re-bound to a new object, the old one dropped first - so that the "
+        "new object may get its id - or kept; often of the same size), an iterator / generator of lines handed over twice (nothing left, "
+        "or the lines behind the line of a LexicalError), re-bound, partly consumed by the caller; calls tokenize / "
+        "parse(do_cleanup=False) / parse with the default cleanup under the same and under another src_name, two calls in a row, "
+        "another text in between, get_orig_text(the object as it is now) of every element of an EARLIER result; the expectation is "
+        "always the model's result for the contents the object has at the time of the call; next to every call the same call is made "
+        "by a new parser object on a new plain copy of the contents.  "
+        "Non-trivial = distinct case with at least two lines or a span token or a foreign character, and at least three tokens; a "
+        "session: at least two calls that returned three or more elements for different contents.")
 TRUSTED_BASE = [
     "re (CPython 3.12): pattern.match(line, col) returns the first alternative that matches at col, end() lies in (col, len(line)] "
     "for the main pattern and in [col, len(line)] for a span body pattern.  In the theorems the compiled patterns are universally "
@@ -59,6 +71,11 @@ TRUSTED_BASE = [
     "alive) and passes the depth-first indices to the model (surviving); the model answers with the spans and texts those raw "
     "elements have.  An element that is not an object of the raw tree is checked by the oracle only (its span must be a span of "
     "the raw tree and its text the slice)",
+    "sessions: Python's list / deque item assignment, insert, del, clear+extend, slice assignment, reverse (the harness applies the "
+    "edit to the real object and to a plain list and stops if they differ; the model gets ESet / EIns / EDel, or EFill with the "
+    "resulting lines for the re-arrangements), iterator protocol (enumerate takes one line at a time; list(it) in get_orig_text "
+    "takes all), CPython's allocator for the 'new object with the id of the dropped one' situations (best effort, not needed for "
+    "a verdict on the unchanged tree)",
     "LLP/Build.v (constructor pipeline: factorization, tables, recursion check) is used unverified to obtain the parse table of the "
     "correspondence cases; the node-span theorems hold for ANY table (they are about LLP/Parse.v step/mk_node)",
 ]
@@ -68,6 +85,11 @@ ASSUMPTIONS = [
     "every span body pattern has a named group (match.group(match.lastgroup) is otherwise an IndexError)",
     "text given as list: the same list is handed to get_orig_text; for a str the tokenizer sees the rstrip()ped lines while "
     "get_orig_text slices the unstripped ones (modelled; the theorems are stated for any pair of line lists related by 'is a prefix of')",
+    "sessions: the contents of a text object at a call are a definite thing - edits happen between calls, never while a token "
+    "generator of that object is suspended; an iterator is a plain one-pass iterator over a list that is not edited meanwhile; "
+    "get_orig_text is documented for 'the whole source text': asked with another text (the buffer after an edit) it is expected to "
+    "slice THAT text between the element's positions or to raise AssertionError when they lie outside it (modelled; oracle "
+    "orig-text-given)",
     "the VALUES of the cleaned tree (which elements are squashed, list / dict contents) are C05's subject: here every TElement "
     "reachable in the cleaned tree (list items, dict keys and values included) is examined for its span and text only",
     "ListProds without brackets or delimiter, optional templates and AnyTokenExcept are not among the generated grammars",
@@ -76,7 +98,9 @@ MODELLED = ("ak/llparser.py: _Tokenizer.tokenize 240-334 (line splitting, rstrip
             "LexicalError positions, $END$), the skip_tokens filter of LLParser.parse 1649-1652, TElement.get_orig_text 460-517, node "
             "positions 1686-1709 and 1752-1756 (LLP/Parse.v mk_node / step), TElement.clone 519-540 (Model.v clone), "
             "LLParser._process_seq_telement 1987-2014 (flatten_seq), find_all / iter_all 645-741 (preorder), the in-place nature of "
-            "StdCleanuper._cleanup 2506-2585 and ListProds / MapProds.transform_t_elem (surviving)")
+            "StdCleanuper._cleanup 2506-2585 and ListProds / MapProds.transform_t_elem (surviving); that tokenize / parse / "
+            "get_orig_text keep nothing between two calls and read the text object anew each time (coq/C04/Session.v: text object "
+            "= str | container of lines | iterator, in-place edits, re-binding, consumption of an iterator by enumerate / list())")
 
 
 class ExtractError(Exception):
@@ -485,7 +509,40 @@ def prev_texts(cfg):
     return out
 
 
-def gen_cases(rng, tier, n=None):
+def _rand_text(rng, cfg, gs, gid):
+    """a random text for grammar gid of configuration cfg -> (text, note)"""
+    kinds = None
+    if gid != "flat" and rng.random() < 0.85:
+        kinds = sentence_kinds(rng, cfg, gs[gid])
+        if kinds is not None and kinds and rng.random() < 0.2:
+            # break the sentence
+            i = rng.randrange(len(kinds))
+            if rng.random() < 0.5:
+                del kinds[i]
+            else:
+                kinds.insert(i, rng.choice([k for k in cfg["names"] if k in KIND_LEXEMES]))
+    if kinds is None:
+        pool = [k for k in cfg["names"] if k in KIND_LEXEMES or k == "mlc"]
+        kinds = [rng.choice(pool) for _ in range(rng.randint(0, 9))]
+    lexemes = [lexeme_for(rng, cfg, k) for k in kinds]
+    style = rng.choice(["oneline", "multi", "multi", "unindented", "unindented"])
+    text = render(rng, cfg, lexemes, style=style)
+    r = rng.random()
+    note = style
+    if r < 0.12 and text:
+        # a foreign character at a chosen position
+        pos = rng.choice([0, len(text), rng.randrange(len(text) + 1), text.find("\n") + 1, max(0, text.rfind("\n"))])
+        text = text[:pos] + rng.choice(FOREIGN) + text[pos:]
+        note += "+foreign"
+    elif r < 0.2 and cfg["open"]:
+        # a span that is never closed
+        pos = rng.choice([len(text), rng.randrange(len(text) + 1)])
+        text = text[:pos] + rng.choice(["", " "]) + cfg["open"] + text[pos:].replace(cfg["close"], cfg["close"][0] + " ")
+        note += "+unclosed"
+    return text, note
+
+
+def gen_cases(rng, tier, n=None, n_sess=None):
     n = n or (14000 if tier == "thorough" else 1800)
     cases = []
     cids = sorted(CONFIGS)
@@ -535,34 +592,7 @@ def gen_cases(rng, tier, n=None):
         cfg = CONFIGS[cid]
         gs = grammars_for(cfg)
         gid = rng.choice(sorted(gs))
-        kinds = None
-        if gid != "flat" and rng.random() < 0.85:
-            kinds = sentence_kinds(rng, cfg, gs[gid])
-            if kinds is not None and kinds and rng.random() < 0.2:
-                # break the sentence
-                i = rng.randrange(len(kinds))
-                if rng.random() < 0.5:
-                    del kinds[i]
-                else:
-                    kinds.insert(i, rng.choice([k for k in cfg["names"] if k in KIND_LEXEMES]))
-        if kinds is None:
-            pool = [k for k in cfg["names"] if k in KIND_LEXEMES or k == "mlc"]
-            kinds = [rng.choice(pool) for _ in range(rng.randint(0, 9))]
-        lexemes = [lexeme_for(rng, cfg, k) for k in kinds]
-        style = rng.choice(["oneline", "multi", "multi", "unindented", "unindented"])
-        text = render(rng, cfg, lexemes, style=style)
-        r = rng.random()
-        note = style
-        if r < 0.12 and text:
-            # a foreign character at a chosen position
-            pos = rng.choice([0, len(text), rng.randrange(len(text) + 1), text.find("\n") + 1, max(0, text.rfind("\n"))])
-            text = text[:pos] + rng.choice(FOREIGN) + text[pos:]
-            note += "+foreign"
-        elif r < 0.2 and cfg["open"]:
-            # a span that is never closed
-            pos = rng.choice([len(text), rng.randrange(len(text) + 1)])
-            text = text[:pos] + rng.choice(["", " "]) + cfg["open"] + text[pos:].replace(cfg["close"], cfg["close"][0] + " ")
-            note += "+unclosed"
+        text, note = _rand_text(rng, cfg, gs, gid)
         as_list = rng.random() < 0.45
         keepends = as_list and rng.random() < 0.2
         keep = None
@@ -575,14 +605,233 @@ def gen_cases(rng, tier, n=None):
             note += "+prev"
         cases.append(mk_case(cid, gid, text, as_list, smart=rng.random() < 0.6, keepends=keepends, note=note,
                              keep=keep, prev=prev))
+    # sessions: one parser object, one text OBJECT, calls with in-place edits in between (drawn after the
+    # single-text cases, which therefore stay what they were)
+    cases += gen_sessions(rng, n_sess if n_sess is not None else (2600 if tier == "thorough" else 420))
     return cases
 
 
+# ------------------------------------------------------------------ sessions on one text object
+# flavour of the text object -> what it is for the model (Session.v tobj)
+FLAVOR_KIND = {"list": "lines", "listsub": "lines", "deque": "lines", "tuple": "lines",
+               "str": "str", "strsub": "str", "eqstr": "str", "iter": "iter", "gen": "iter"}
+MUTABLE = ("list", "listsub", "deque")
+FLAVOR_POOL = ["list"] * 6 + ["listsub", "listsub", "deque", "deque", "tuple", "str", "str", "strsub", "eqstr",
+                              "iter", "iter", "gen", "gen"]
+
+
+class _Lines(list):
+    """a user's subclass of list"""
+
+
+class _Str(str):
+    """a user's subclass of str"""
+
+
+class _EqStr(str):
+    """a subclass of str all of whose instances compare equal and hash alike: whatever is remembered under
+    the text itself as key takes one text for another"""
+
+    def __eq__(self, other):
+        return isinstance(other, _EqStr)
+
+    def __ne__(self, other):
+        return not isinstance(other, _EqStr)
+
+    def __hash__(self):
+        return 7
+
+
+def _same_len(rng, line):
+    """another line of the same length"""
+    parts = line.split(" ")
+    if len(set(parts)) > 1:
+        k = rng.randrange(1, len(parts))
+        cand = " ".join(parts[k:] + parts[:k])
+        if cand != line:
+            return cand
+    tr = str.maketrans("abcdxq0123457", "zzyxabx9876543"[:13])
+    return line.translate(tr)
+
+
+def gen_edit(rng, cur, pool):
+    """an in-place edit of the list of lines cur -> step (with the contents afterwards)"""
+    n = len(cur)
+    for _ in range(6):
+        how = rng.choice(["set", "set", "samelen", "samelen", "ins", "ins", "del", "fill", "fill_slice", "fill_same_n",
+                          "append", "swap", "reverse", "pop", "break", "blank"])
+        st = None
+        if how in ("set", "samelen", "break", "blank") and n:
+            i = rng.randrange(n)
+            if how == "set":
+                line = rng.choice(pool) if pool else "x"
+            elif how == "samelen":
+                line = _same_len(rng, cur[i])
+            elif how == "break":
+                k = rng.randrange(len(cur[i]) + 1)
+                line = cur[i][:k] + rng.choice(FOREIGN) + cur[i][k:]
+            else:
+                line = rng.choice(["", "  ", "\t"])
+            st = {"op": "edit", "how": "set", "i": i, "line": line, "coq": ["set", i, line],
+                  "after": cur[:i] + [line] + cur[i + 1:]}
+        elif how == "ins":
+            i = rng.randint(0, n)
+            line = rng.choice((pool or ["y"]) + ["", ""])
+            st = {"op": "edit", "how": "ins", "i": i, "line": line, "coq": ["ins", i, line],
+                  "after": cur[:i] + [line] + cur[i:]}
+        elif how == "append":
+            line = rng.choice((pool or ["y"]) + [""])
+            st = {"op": "edit", "how": "append", "line": line, "coq": ["ins", n, line], "after": cur + [line]}
+        elif how in ("del", "pop") and (n >= 2 or (n == 1 and rng.random() < 0.1)):
+            i = n - 1 if how == "pop" else rng.randrange(n)
+            st = {"op": "edit", "how": how, "i": i, "coq": ["del", i], "after": cur[:i] + cur[i + 1:]}
+        elif how in ("fill", "fill_slice", "fill_same_n"):
+            lines = list(pool) or [""]
+            if how == "fill_same_n" and n:
+                lines = (lines * n)[:n]
+            st = {"op": "edit", "how": "fill" if how != "fill_slice" else "fill_slice", "lines": lines,
+                  "coq": ["fill", lines], "after": list(lines)}
+        elif how == "swap" and n >= 2:
+            i, j = rng.sample(range(n), 2)
+            after = list(cur)
+            after[i], after[j] = after[j], after[i]
+            st = {"op": "edit", "how": "swap", "i": i, "j": j, "coq": ["fill", after], "after": after}
+        elif how == "reverse" and n >= 2:
+            st = {"op": "edit", "how": "reverse", "coq": ["fill", cur[::-1]], "after": cur[::-1]}
+        if st is not None and st["after"] != cur:
+            return st
+    line = (cur[0] if cur else "") + " q"
+    return {"op": "edit", "how": "fill", "lines": [line] + cur[1:], "coq": ["fill", [line] + cur[1:]], "after": [line] + cur[1:]}
+
+
+def gen_session(rng, cid):
+    cfg = CONFIGS[cid]
+    gs = grammars_for(cfg)
+    gid = "flat" if rng.random() < 0.5 else rng.choice(sorted(gs))
+    flavor = rng.choice(FLAVOR_POOL)
+    fk = FLAVOR_KIND[flavor]
+
+    def lines_of():
+        t, _ = _rand_text(rng, cfg, gs, gid)
+        ls = t.split("\n")
+        return ls[:7]
+
+    cur = lines_of()
+    init = "\n".join(cur) if fk == "str" else list(cur)
+    steps = []
+    last = [None]
+
+    def call():
+        whats = ["parse", "parse", "parse", "tok"] + (["parsed"] if fk != "iter" else [])
+        what = last[0] if (last[0] and rng.random() < 0.55) else rng.choice(whats)
+        last[0] = what
+        steps.append({"op": "call", "what": what, "src": "src" if rng.random() < 0.75 else "another source"})
+
+    def orig():
+        steps.append({"op": "orig", "k": rng.choice([0, 0, 0, 1, 2])})
+
+    call()
+    if flavor in MUTABLE:
+        for _ in range(rng.randint(1, 3)):
+            if rng.random() < 0.08:
+                steps.append({"op": "burn", "text": rng.choice(prev_texts(cfg))})
+            pool = lines_of()
+            for _ in range(rng.choice([1, 1, 1, 2])):
+                e = gen_edit(rng, cur, pool)
+                steps.append(e)
+                cur = e["after"]
+            if rng.random() < 0.35:
+                orig()
+            call()
+            if rng.random() < 0.25:
+                call()
+    elif fk != "iter":
+        for _ in range(rng.randint(1, 3)):
+            pool = lines_of()
+            r = rng.random()
+            if r < 0.4 and cur:
+                # another text of the same size (a new object of the same size is likely to get the address of the old one)
+                new = list(cur)
+                for i in rng.sample(range(len(cur)), rng.randint(1, len(cur))):
+                    new[i] = _same_len(rng, cur[i])
+                if new == cur:
+                    new = cur[::-1] if cur[::-1] != cur else [l.swapcase() for l in cur]
+            elif r < 0.7:
+                new = gen_edit(rng, cur, pool)["after"]
+            else:
+                new = pool
+            cur = new
+            steps.append({"op": "new", "contents": "\n".join(new) if fk == "str" else list(new), "drop": rng.random() < 0.75})
+            if rng.random() < 0.35:
+                orig()
+            call()
+            if rng.random() < 0.3:
+                # the same object once more, under another name
+                steps.append({"op": "call", "what": last[0], "src": "src" if steps[-1]["src"] != "src" else "another source"})
+    else:
+        call()          # the same iterator once more: nothing is left (or what follows the line of a LexicalError)
+        if rng.random() < 0.5:
+            orig()
+        if rng.random() < 0.7:
+            new = lines_of()
+            steps.append({"op": "new", "contents": list(new), "drop": rng.random() < 0.7})
+            if rng.random() < 0.4:
+                steps.append({"op": "next", "n": rng.randint(0, 2)})
+            call()
+            if rng.random() < 0.6:
+                call()
+    if rng.random() < 0.4:
+        orig()
+    c = mk_case(cid, gid, "", False, smart=rng.random() < 0.6, note="session")
+    c["text"] = init
+    c["sess"] = {"flavor": flavor, "init": init, "steps": steps}
+    return c
+
+
+def gen_sessions(rng, n):
+    cids = sorted(CONFIGS)
+    out = []
+    # fixed probes: the buffer of lines of an editor, parsed again after every kind of edit, by every kind of call
+    for cid in cids:
+        for flavor in MUTABLE:
+            for what in ("parse", "tok", "parsed"):
+                cur = ["ab 12", "cd", "x 3 y"]
+                steps = [{"op": "call", "what": what, "src": "src"}]
+                for e in ({"how": "set", "i": 0, "line": "  foo 345 ; q", "coq": ["set", 0, "  foo 345 ; q"]},
+                          {"how": "ins", "i": 1, "line": "", "coq": ["ins", 1, ""]},
+                          {"how": "del", "i": 2, "coq": ["del", 2]},
+                          {"how": "set", "i": 0, "line": "  zz 12 q ; 7", "coq": ["set", 0, "  zz 12 q ; 7"]},
+                          {"how": "fill", "lines": ["q", "", " a 1"], "coq": ["fill", ["q", "", " a 1"]]}):
+                    e = dict(e, op="edit")
+                    after = list(cur)
+                    if e["how"] == "set":
+                        after[e["i"]] = e["line"]
+                    elif e["how"] == "ins":
+                        after.insert(e["i"], e["line"])
+                    elif e["how"] == "del":
+                        del after[e["i"]]
+                    else:
+                        after = list(e["lines"])
+                    e["after"] = cur = after
+                    steps += [e, {"op": "call", "what": what, "src": "src"}]
+                steps.append({"op": "orig", "k": 0})
+                c = mk_case(cid, "flat", "", False, note="session-probe")
+                c["text"] = ["ab 12", "cd", "x 3 y"]
+                c["sess"] = {"flavor": flavor, "init": ["ab 12", "cd", "x 3 y"], "steps": steps}
+                out.append(c)
+    while len(out) < n:
+        out.append(gen_session(rng, rng.choice(cids)))
+    return out[:n] if n < len(out) else out
+
+
+
 def search_cases(rng, tier):
-    return gen_cases(rng, "thorough", n=3000)
+    return gen_cases(rng, "thorough", n=3000, n_sess=900)
 
 
 def kind(case):
+    if case.get("sess"):
+        return f"session cfg={case['cfg']} g={case['gid']} {case['sess']['flavor']}"
     t = case["text"]
     nl = len(t) if isinstance(t, list) else t.count("\n") + 1
     return f"cfg={case['cfg']} g={case['gid']} {'list' if isinstance(t, list) else 'str'} lines={min(nl, 4)}{'+' if nl > 4 else ''}"
@@ -764,26 +1013,245 @@ def _burn(p, text, keepalive):
             raise
 
 
-def impl_run(case):
-    from ak import llparser
-    text = case["text"]
+def _mk_parser(case, llparser):
     kwargs = {}
     if case["skip"] is not None:
         kwargs["skip_tokens"] = set(case["skip"])
     if case.get("keep") is not None:
         kwargs["keep_symbols"] = set(case["keep"])
+    return llparser.LLParser(
+        tokenizer_str(case), productions=_productions(case, llparser), start_symbol_name=case["start"],
+        synonyms=dict(case["syn"]) or None,
+        keywords={(n, v): k for n, v, k in case["kw"]} or None,
+        span_matchers=span_matchers(case) or None,
+        smart_factorization=case["smart"], **kwargs)
+
+
+# ---- sessions
+def _mk_obj(flavor, contents, track):
+    """a NEW text object of the flavour with the contents (a str / a list of lines)"""
+    import collections
+    if flavor == "list":
+        return list(contents)
+    if flavor == "listsub":
+        return _Lines(contents)
+    if flavor == "deque":
+        return collections.deque(contents)
+    if flavor == "tuple":
+        return tuple(contents)
+    if flavor == "str":
+        return "".join(list(contents))
+    if flavor == "strsub":
+        return _Str(contents)
+    if flavor == "eqstr":
+        return _EqStr(contents)
+    track["backing"] = list(contents)
+    track["n"] = 0
+    if flavor == "iter":
+        return iter(track["backing"])
+
+    def counting(lines, tr):
+        for l in lines:
+            tr["n"] += 1
+            yield l
+    return counting(track["backing"], track)
+
+
+def _snap(flavor, T, track):
+    """the present contents of the text object, as plain str / list of lines (nothing is consumed)"""
+    fk = FLAVOR_KIND[flavor]
+    if fk == "str":
+        return "".join(list(T))       # a copy: T[:] of an exact str is T itself and would keep it alive
+    if fk == "lines":
+        return list(T)
+    b = track["backing"]
+    if flavor == "iter":
+        return b[len(b) - T.__length_hint__():]
+    return b[track["n"]:]
+
+
+def _apply_edit(T, st):
+    how = st["how"]
+    if how == "set":
+        T[st["i"]] = st["line"]
+    elif how == "ins":
+        T.insert(st["i"], st["line"])
+    elif how == "append":
+        T.append(st["line"])
+    elif how == "del":
+        del T[st["i"]]
+    elif how == "pop":
+        T.pop()
+    elif how == "fill":
+        T.clear()
+        T.extend(st["lines"])
+    elif how == "fill_slice":
+        if isinstance(T, list):
+            T[:] = st["lines"]
+        else:
+            T.clear()
+            for l in st["lines"]:
+                T.append(l)
+    elif how == "swap":
+        T[st["i"]], T[st["j"]] = T[st["j"]], T[st["i"]]
+    elif how == "reverse":
+        T.reverse()
+    else:
+        raise ValueError(how)
+    if list(T) != st["after"]:
+        raise RuntimeError(f"harness: edit {how} gave {list(T)!r}, expected {st['after']!r}")
+
+
+def _names_of(*positions):
+    return sorted({p.src_name for p in positions if p is not None})
+
+
+def _call_tok(llparser, p, T, src, otext_of):
+    """-> (lex observation, elements (tokens as TElement) or None, src names seen)"""
     try:
-        p = llparser.LLParser(
-            tokenizer_str(case), productions=_productions(case, llparser), start_symbol_name=case["start"],
-            synonyms=dict(case["syn"]) or None,
-            keywords={(n, v): k for n, v, k in case["kw"]} or None,
-            span_matchers=span_matchers(case) or None,
-            smart_factorization=case["smart"], **kwargs)
+        toks = list(p.tokenizer.tokenize(T, src))
+    except llparser.LexicalError as e:
+        return ["err", "LexicalError", list(e.src_pos.coords), e.text], None, _names_of(e.src_pos)
+    except BaseException as e:  # noqa
+        if type(e).__name__ == "Hang":
+            raise
+        return ["err", SX.exc_name(e), None, None], None, []
+    otext = otext_of()
+    els, tl, names = [], [], set()
+    for t in toks:
+        te = llparser.TElement(t.name, t.value, start_pos=t.start_pos, end_pos=t.end_pos)
+        els.append(te)
+        names.update(_names_of(t.start_pos, t.end_pos))
+        tl.append([t.name, t.value, [list(t.span[0]), list(t.span[1])], _orig_obs(te, otext)])
+    return ["ok", tl], els, sorted(names)
+
+
+def _call_parse(llparser, p, T, src, otext_of):
+    try:
+        raw = p.parse(T, src_name=src, do_cleanup=False)
+    except llparser.LexicalError as e:
+        return ["err", "LexicalError", list(e.src_pos.coords), e.text], None, _names_of(e.src_pos)
+    except llparser.ParsingError as e:
+        return ["err", "ParsingError", list(e.src_pos.coords), None], None, _names_of(e.src_pos)
+    except BaseException as e:  # noqa
+        if type(e).__name__ == "Hang":
+            raise
+        return ["err", SX.exc_name(e), None, None], None, []
+    els = _preorder(raw)
+    names = set()
+    for x in els:
+        names.update(_names_of(x.start_pos, x.end_pos))
+    return ["ok", _tree_obs(raw, otext_of())], els, sorted(names)
+
+
+def _call_parsed(llparser, p, T, src, otext_of):
+    """parse with the default cleanup -> (observation of the cleaned tree, src names)"""
+    try:
+        d = p.parse(T, src_name=src)
+    except llparser.LexicalError as e:
+        return ["err", "LexicalError", list(e.src_pos.coords), e.text], _names_of(e.src_pos)
+    except llparser.ParsingError as e:
+        return ["err", "ParsingError", list(e.src_pos.coords), None], _names_of(e.src_pos)
+    except BaseException as e:  # noqa
+        if type(e).__name__ == "Hang":
+            raise
+        return ["err", SX.exc_name(e), None, None], []
+    seen = []
+    o = _clean_obs(d, otext_of(), {}, llparser.TElement, seen)
+    names = set()
+    for x in seen:
+        names.update(_names_of(x.start_pos, x.end_pos))
+    return ["ok", o], sorted(names)
+
+
+def _session_run(case, llparser, p, out):
+    """one parser object p, one text object T: calls, in-place edits / re-binding in between.  Next to every call
+    the same call is made by a NEW parser object on a NEW plain copy of the present contents."""
+    import gc
+    ss = case["sess"]
+    flavor = ss["flavor"]
+    fk = FLAVOR_KIND[flavor]
+    track = {}
+    T = _mk_obj(flavor, ss["init"], track)
+    results = []          # elements of the successful tok / parse(do_cleanup=False) calls
+    keep = []
+    steps = []
+    for st in ss["steps"]:
+        op = st["op"]
+        rec = {"op": op}
+        if op == "edit":
+            _apply_edit(T, st)
+        elif op == "new":
+            if st["drop"]:
+                # the old object is dropped first: the new one may get its address (id)
+                old = id(T)
+                T = None
+                gc.collect()
+                tries = []
+                for _ in range(25):
+                    T = _mk_obj(flavor, st["contents"], track)
+                    if id(T) == old:
+                        break
+                    tries.append(T)
+                del tries
+            else:
+                keep.append(T)
+                T = _mk_obj(flavor, st["contents"], track)
+        elif op == "next":
+            for _ in range(st["n"]):
+                next(T, None)
+        elif op == "burn":
+            _burn(p, st["text"], keep)
+        elif op == "call":
+            snap = _snap(flavor, T, track)
+            live = T
+            otext_of = (lambda: list(snap)) if fk == "iter" else (lambda: live)
+            rec.update(what=st["what"], src=st["src"], snap=snap)
+            if st["what"] == "tok":
+                rec["shared"], els, rec["srcs"] = _call_tok(llparser, p, T, st["src"], otext_of)
+            elif st["what"] == "parse":
+                rec["shared"], els, rec["srcs"] = _call_parse(llparser, p, T, st["src"], otext_of)
+            else:
+                els = None
+                rec["shared"], rec["srcs"] = _call_parsed(llparser, p, T, st["src"], otext_of)
+            if els is not None:
+                results.append(els)
+            # the same call, nothing shared with what went before
+            pf = _mk_parser(case, llparser)
+            Tf = snap if fk == "str" else list(snap)
+            rec["fresh_lex"] = _call_tok(llparser, pf, Tf, st["src"], lambda: Tf)[0]
+            rec["fresh_parse"] = _call_parse(llparser, pf, Tf, st["src"], lambda: Tf)[0]
+            if st["what"] == "parsed":
+                rec["fresh_clean"] = _call_parsed(llparser, pf, Tf, st["src"], lambda: Tf)[0]
+            live = otext_of = els = None      # nothing but T refers to the text object
+        elif op == "orig":
+            k = st["k"]
+            rec["k"] = k
+            rec["snap"] = _snap(flavor, T, track)
+            if k < len(results):
+                rec["spans"] = [_span_obs(x) for x in results[k]]
+                rec["res"] = [_orig_obs(x, T) for x in results[k]]
+            else:
+                rec["spans"] = rec["res"] = None
+        else:
+            raise ValueError(op)
+        steps.append(rec)
+    out["steps"] = steps
+    return out
+
+
+def impl_run(case):
+    from ak import llparser
+    text = case["text"]
+    try:
+        p = _mk_parser(case, llparser)
     except BaseException as e:  # noqa
         if type(e).__name__ == "Hang":
             raise
         return {"ctor": ["err", SX.exc_name(e)]}
     out = {"ctor": ["ok"], "skip": sorted(p.skip_tokens)}
+    if case.get("sess"):
+        return _session_run(case, llparser, p, out)
     prev = case.get("prev")
     keepalive = []
     if prev and prev["mode"] == "before":
@@ -856,6 +1324,42 @@ def _clist(items, ty):
     return SX.clist(items) if items else f"(@nil {ty})"
 
 
+def _cobj(fk, contents):
+    if fk == "str":
+        return f"(TStr {SX.cstr(contents)})"
+    return f"({'TLines' if fk == 'lines' else 'TIter'} " + _clist((SX.cstr(l) for l in contents), "(list Z)") + ")"
+
+
+def _csteps(case):
+    fk = FLAVOR_KIND[case["sess"]["flavor"]]
+    out = []
+    for st in case["sess"]["steps"]:
+        op = st["op"]
+        if op == "edit":
+            c = st["coq"]
+            if c[0] == "set":
+                out.append(f"SEdit (ESet {c[1]}%nat {SX.cstr(c[2])})")
+            elif c[0] == "ins":
+                out.append(f"SEdit (EIns {c[1]}%nat {SX.cstr(c[2])})")
+            elif c[0] == "del":
+                out.append(f"SEdit (EDel {c[1]}%nat)")
+            else:
+                out.append("SEdit (EFill " + _clist((SX.cstr(l) for l in c[1]), "(list Z)") + ")")
+        elif op == "new":
+            out.append(f"SNew {_cobj(fk, st['contents'])}")
+        elif op == "next":
+            out.append(f"SNext {st['n']}%nat")
+        elif op == "call" and st["what"] == "tok":
+            out.append("STok")
+        elif op == "call" and st["what"] == "parse":
+            out.append("SParse")
+        elif op == "orig":
+            out.append(f"SOrig {st['k']}%nat")
+        # "burn" (another text in between) and "parsed" (default cleanup; its values are C05's) leave the text
+        # object alone and are not steps of the model
+    return _clist(out, "sstep")
+
+
 def coq_case(case, obs):
     lex = _clist((f"({_csym(n)}, {_cpat(k, a)})" for n, k, a in case["lex"]), "(list Z * pat)")
     spans = _clist((f"({_csym(g)}, {SX.cstr(c)})" for g, c in case["spans"]), "(list Z * list Z)")
@@ -864,9 +1368,13 @@ def coq_case(case, obs):
     skip = "None" if case["skip"] is None else "(Some " + _clist((_csym(s) for s in case["skip"]), "(list Z)") + ")"
     ug = SX.clist("(" + _csym(nt) + ", " + SX.clist(SX.clist(_csym(s) for s in alt) if alt else "(@nil (list Z))" for alt in alts) + ")"
                   for nt, alts in case["prods"])
-    inp = _cinput(case["text"])
     gen = _clist((_csym(x) for x in case.get("gen") or []), "(list Z)")
     seqs = _clist((_csym(x) for x in case.get("seqs") or []), "(list Z)")
+    if case.get("sess"):
+        o0 = _cobj(FLAVOR_KIND[case["sess"]["flavor"]], case["sess"]["init"])
+        return (f"Sess (mkCfg {lex} {spans} {syn} {kw}) {skip} {ug} {SX.cbool(case['smart'])} {_csym(case['start'])} "
+                f"{FUEL}%nat {gen} {seqs} {o0} {_csteps(case)} ({_csx(observation(case, obs))})")
+    inp = _cinput(case["text"])
     alts = _clist((_cinput(a) for _, a in alt_texts(case["text"])), "input")
     ks = _clist((f"{k}%nat" for k in surviving_indices(obs)), "nat")
     return (f"Case (mkCfg {lex} {spans} {syn} {kw}) {skip} {ug} {SX.cbool(case['smart'])} {_csym(case['start'])} "
@@ -919,10 +1427,29 @@ def _sx_tree(t):
     return [1, SX.s(t[1]), [_sx_tree(c) for c in t[2]], _sx_span(t[3]), _sx_text(t[4])]
 
 
+def _sx_step(st):
+    """one call of a session, in the encoding of C04/Run.v sx_callres"""
+    if st["op"] == "orig":
+        if st["res"] is None:
+            return [6]
+        return [5, [_sx_text(t) for t in st["res"]]]
+    r = st["shared"]
+    if r[0] == "err" and r[1] == "LexicalError":
+        return [1, [r[2][0], r[2][1]], SX.s(r[3])]
+    if st["what"] == "tok":
+        if r[0] == "err":
+            return [9, SX.err(r[1])[1]]
+        return [0, [[SX.s(n), SX.s(v if v is not None else ""), _sx_span(sp), _sx_text(o)] for n, v, sp, o in r[1]]]
+    return [0, SX.ok(_sx_tree(r[1])) if r[0] == "ok" else SX.err(r[1])]
+
+
 def observation(case, obs):
     """the canonical observation (nested lists of ints) of what the implementation did"""
     if obs["ctor"][0] == "err":
         return [3, SX.err(obs["ctor"][1])[1]]
+    if case.get("sess"):
+        return [4, [_sx_step(st) for st in obs["steps"]
+                    if (st["op"] == "call" and st["what"] in ("tok", "parse")) or st["op"] == "orig"]]
     lex = obs["lex"]
     if lex[0] == "err":
         if lex[1] != "LexicalError":
@@ -1057,6 +1584,72 @@ def oracle(case, obs):
         return [("hang", "constructor / tokenizer / parse did not return")]
     if obs["ctor"][0] != "ok":
         return [("ctor-error", f"LLParser constructor raised {obs['ctor'][1]} for a grammar of the fixed family")]
+    if case.get("sess"):
+        return _oracle_session(case, obs)
+    return _oracle_single(case, obs)
+
+
+def _describe(st):
+    if st["op"] == "call":
+        return {"tok": "tokenize", "parse": "parse(do_cleanup=False)", "parsed": "parse"}[st["what"]] + f"[{st['src']}]"
+    if st["op"] == "edit":
+        return "edit:" + st["how"]
+    return st["op"]
+
+
+def _oracle_session(case, obs):
+    """the statement at every call of the session, for the contents the text object has AT THAT CALL; the same call
+    made by a new parser object on a new copy of the contents must give the same; get_orig_text slices the text it is
+    given"""
+    out = []
+    ss = case["sess"]
+    fk = FLAVOR_KIND[ss["flavor"]]
+    base = {k: v for k, v in case.items() if k != "sess"}
+    hist = []
+    for i, (st, rec) in enumerate(zip(ss["steps"], obs["steps"])):
+        hist.append(_describe(st))
+        where = f"step #{i} of the session on one {ss['flavor']} object [{' ; '.join(hist)}]"
+        if rec["op"] == "call":
+            what = rec["what"]
+            fresh = rec["fresh_clean"] if what == "parsed" else rec["fresh_lex"] if what == "tok" else rec["fresh_parse"]
+            fs = []
+            if what != "parsed":
+                pc = dict(base)
+                pc["text"] = rec["snap"]
+                po = {"ctor": ["ok"], "skip": obs["skip"],
+                      "lex": rec["shared"] if what == "tok" else rec["fresh_lex"],
+                      "parse": rec["shared"] if what == "parse" else rec["fresh_parse"]}
+                fs = _oracle_single(pc, po, ops=False)
+                out += [(sig, f"{where}: present contents {rec['snap']!r}: {msg}") for sig, msg in fs]
+            if rec["shared"] != fresh and not fs:
+                out.append(("history-dependent", f"{where}: the contents of the text object are {rec['snap']!r}; the call gives "
+                            f"{_first_diff(fresh, rec['shared'])} (a new parser on a copy of the contents vs this parser on the object)"))
+            if rec["shared"][0] == "ok" or rec["shared"][1] in ("LexicalError", "ParsingError"):
+                if rec["srcs"] != [rec["src"]]:
+                    out.append(("src-name", f"{where}: positions carry the source names {rec['srcs']}, the call said {rec['src']!r}"))
+        elif rec["op"] == "orig" and rec["res"] is not None:
+            snap = rec["snap"]
+            olines = snap.split("\n") if fk == "str" else list(snap)
+            offs = _Offsets(olines)
+            none = _Offsets([])
+            for j, (sp, got) in enumerate(zip(rec["spans"], rec["res"])):
+                o = none if (fk == "iter" and j > 0) else offs
+                reg = o.region((tuple(sp[0]), tuple(sp[1]))) if o.lines else None
+                want = ["ok", reg] if reg is not None else ["err", "AssertionError"]
+                if got != want:
+                    out.append(("orig-text-given", f"{where}: element #{j} of result {rec['k']} with span {sp}: get_orig_text of the "
+                                f"text object as it is now ({snap!r}) gives {got}, the characters between the two positions "
+                                f"are {want}"))
+                    break
+    seen, res = set(), []
+    for sig, msg in out:
+        if sig not in seen:
+            seen.add(sig)
+            res.append((sig, msg))
+    return res[:5]
+
+
+def _oracle_single(case, obs, ops=True):
     out = []
     text = case["text"]
     if isinstance(text, list) and not text:
@@ -1152,7 +1745,8 @@ def oracle(case, obs):
     if pr[0] == "ok":
         info = []
         out += _check_tree(pr[1], ns, offs, info)
-        out += _check_ops(obs, pr[1], info, offs)
+        if ops:
+            out += _check_ops(obs, pr[1], info, offs)
     elif pr[1] == "ParsingError":
         if tuple(pr[2]) not in [tuple(t[2][0]) for t in ns]:
             out.append(("parse-error-pos", f"ParsingError.src_pos {pr[2]} is not the start of a token"))
@@ -1349,6 +1943,11 @@ def _n_leaves(t):
 def nontrivial(case, obs):
     if "__hang__" in obs or obs["ctor"][0] != "ok":
         return False
+    if case.get("sess"):
+        # at least two calls that returned tokens / a tree of three or more elements, the contents differing
+        good = [r for r in obs["steps"] if r["op"] == "call" and r["shared"][0] == "ok"
+                and (r["what"] == "parsed" or len(r["shared"][1] if r["what"] == "tok" else _pre_obs(r["shared"][1])) >= 3)]
+        return len(good) >= 2 and any(a["snap"] != b["snap"] for a, b in zip(good, good[1:]))
     t = case["text"]
     s = "\n".join(t) if isinstance(t, list) else t
     multi = (len(t) if isinstance(t, list) else t.count("\n") + 1) >= 2
@@ -1364,12 +1963,28 @@ def outcome(case, obs):
         return "hang"
     if obs["ctor"][0] != "ok":
         return "ctor:" + obs["ctor"][1]
+    if case.get("sess"):
+        calls = [r for r in obs["steps"] if r["op"] == "call"]
+        return "session:" + ("ok" if all(r["shared"][0] == "ok" for r in calls) else "some-call-raises")
     if obs["lex"][0] != "ok":
         return "lex:" + obs["lex"][1]
     return "parse:" + (obs["parse"][0] if obs["parse"][0] == "ok" else obs["parse"][1])
 
 
 def shrink_candidates(case):
+    if case.get("sess"):
+        # shorter histories: cut the end, drop calls that change nothing
+        steps = case["sess"]["steps"]
+        for n in range(len(steps) - 1, 0, -1):
+            c = dict(case)
+            c["sess"] = dict(case["sess"], steps=steps[:n])
+            yield c
+        for i, st in enumerate(steps):
+            if st["op"] in ("burn", "orig") or (st["op"] == "call" and i + 1 < len(steps)):
+                c = dict(case)
+                c["sess"] = dict(case["sess"], steps=steps[:i] + steps[i + 1:])
+                yield c
+        return
     t = case["text"]
     if isinstance(t, list):
         for i in range(len(t)):
@@ -1413,7 +2028,13 @@ LEVEL_TEXT = ("Full for the statement's clauses, as theorems about the model for
               "(in-parse flattening of ProdSequence elements keeps every span exact), listed_is_subtree / surviving_is_subtree and "
               "api_node_exact (every element of the clone of the flattened parse result - hence every element find_all lists and "
               "every raw element that survives the cleanup - covers exactly its tokens and get_orig_text returns the region between "
-              "its positions).  source_shape ties the model to the presence of the line-start statement in the source; "
+              "its positions); for one text object used again after it changed (C04/Session.v, strengthening round 2): "
+              "call_leaves_text_object, iterator_used_up, session_results_by_state, buffer_after_session (after any calls the "
+              "contents of a buffer are what the edits made of it), session_tokens_exact / session_tree_exact (a tokenize / parse "
+              "call made at ANY moment of a history of calls and in-place edits gives tokens / tree elements that delimit "
+              "characters of the contents of THAT moment), orig_text_is_local, stale_element_above_edit, "
+              "stale_element_line_replaced_elsewhere (get_orig_text slices the text it is given and depends on the element's lines "
+              "only).  source_shape ties the model to the presence of the line-start statement in the source; "
               "harness_matcher_ok proves the hypotheses for the concrete matcher that is compared with re on every run.  "
               "Only tested (correspondence + offset-based reference tokenizer), not theorems: that the reported closer is the FIRST "
               "place where the span body pattern matches; the converse direction of lex_error_line beyond what tokens_cover + "
@@ -1421,9 +2042,12 @@ LEVEL_TEXT = ("Full for the statement's clauses, as theorems about the model for
               "the start of a token); that cleanup() works in place and never touches a position (the elements of the cleaned tree "
               "are identified with raw elements by object identity at run time and the model is asked for THEIR spans; an element that "
               "is a new object is checked by the oracle only); that positions do not depend on what the parser object was used for "
-              "before or in between (histories are generated, the model is a pure function of the text); get_orig_text under another "
+              "before or in between, nor on what the SAME text object contained at an earlier call (histories and sessions on one "
+              "mutable text object are generated; the model is a pure function of the present contents - that the implementation "
+              "remembers nothing per text object / per src_name is exactly what the session correspondence and the oracle "
+              "signatures history-dependent, src-name, orig-text-given test); get_orig_text under another "
               "representation of the text (compared with the model's orig_lines of that representation); fidelity of the model "
-              "(1500 cases quick / 14000 thorough, seven configurations, ten grammars).")
+              "(1800 cases + 420 sessions quick / 14000 + 2600 thorough, seven configurations, ten grammars).")
 LEVEL_NOTE = ("Trusted: Coq kernel + vm_compute; fidelity of the hand model of _Tokenizer.tokenize / get_orig_text / the skip filter and of "
               "LLP/Parse.v (checked by correspondence on token lists, LexicalError position and text, tree spans and get_orig_text of every "
               "token and node, not proved); re, str.isspace/split/rstrip of CPython; the ast extractor and harness.  Outside the "
